@@ -577,6 +577,9 @@ func (i *interpreter) load(T types.Type, p value) value {
 func (i *interpreter) loadCell(T types.Type, addr *value) value {
 	switch T := T.Underlying().(type) {
 	case *types.Struct:
+		if no, ok := (*addr).(nativeObj); ok {
+			return no
+		}
 		v := (*addr).(structure)
 		a := make(structure, len(v))
 		for k := range a {
@@ -647,6 +650,10 @@ func (i *interpreter) store(T types.Type, p value, v value) {
 func (i *interpreter) storeCell(T types.Type, addr *value, v value) {
 	switch T := T.Underlying().(type) {
 	case *types.Struct:
+		if _, ok := v.(nativeObj); ok {
+			i.wr(addr, v)
+			return
+		}
 		lhs := (*addr).(structure)
 		rhs := v.(structure)
 		for k := range lhs {
